@@ -567,7 +567,7 @@ static Case generate(Tape &t)
 			if (!put) e.subject.rdns.insert(e.subject.rdns.begin(), { xl::Attr{ xl::OID_CN, xl::T_UTF8, xl::B("first.cn.invalid") } });
 			C.defects.push_back("several leaf names"); break;
 		}
-		case 22: C.cfg.min_rsa = t.pick<int>({ 128, 129, 192, 256, 257 }); C.defects.push_back(fmt("minimum RSA size %d bytes", C.cfg.min_rsa)); break;
+		case 22: C.cfg.min_rsa = t.pick<int>({ 128, 129, 192, 256, 257, 127, 96, 64, 65 }); C.defects.push_back(fmt("minimum RSA size %d bytes", C.cfg.min_rsa)); break;
 		default: { ACert &e = C.chain[0]; for (auto &rdn : e.subject.rdns) for (auto &a : rdn) if (a.oid == xl::OID_CN && a.tag != xl::T_BMP) { Bytes w; for (auto ch : a.value) { w.push_back(0); w.push_back(ch); } a.value = w; a.tag = xl::T_BMP; } C.defects.push_back("leaf CN as BMPString"); break; }
 		}
 	}
@@ -618,6 +618,13 @@ static void check_case(Case &C, Tape &t)
 	size_t chunk = t.pick<size_t>({ 0, 0, 1, 7, 100 });
 	LibOut lib = run_lib(ders, C.cfg, dynamic, impl, tcb, chunk);
 	bool single = C.defects.size() <= 1;
+	if (C.cfg.min_rsa > 0 && C.cfg.min_rsa < 128 && lib.err == BR_ERR_X509_WEAK_PUBLIC_KEY && ref.err != BR_ERR_X509_WEAK_PUBLIC_KEY && known("x509-minrsa-below-128")) {
+		// listed finding: the configured minimum is stored as a signed difference from 128 and read back unsigned
+		stats.known_finding("x509-minrsa-below-128", fmt("br_x509_minimal_set_minrsa(%d): every RSA key is rejected as too weak", C.cfg.min_rsa));
+		stats.excluded++;
+		stats.eval();
+		return;
+	}
 	VF_CHECK((lib.err == 0) == (ref.err == 0), "%s: the validator %s (error %u %s), the reference %s (%s)", desc.c_str(), lib.err == 0 ? "ACCEPTS" : "rejects", lib.err, ERRNAME(lib.err),
 		ref.err == 0 ? "ACCEPTS" : "rejects", ERRNAME(ref.err));
 	if (single) VF_CHECK(lib.err == ref.err, "%s: error code %u (%s), documented code for this defect is %u (%s)", desc.c_str(), lib.err, ERRNAME(lib.err), ref.err, ERRNAME(ref.err));
